@@ -242,6 +242,8 @@ pub fn run(args: &Args) -> i32 {
 
     let npairs = pairs.load(Ordering::Relaxed);
     let nres = resolve_cases.load(Ordering::Relaxed);
+    // the CLI clause: specifiers and sources[] of whole projects over output layouts
+    let cli_layer = crate::e2e::c20_layer(&rep, args);
     let cov = json!({
         "states": npairs + nres + paths.len() as u64,
         "transitions": calls.load(Ordering::Relaxed),
@@ -253,6 +255,7 @@ pub fn run(args: &Args) -> i32 {
         "bound": {"max_components": n, "max_relative_components": nrel},
         "paths": paths.len(),
         "pairs": npairs,
+        "cli_layer(specifier and sources[] of generated projects)": cli_layer,
         "pairs_excluded_b_ancestor_of_a": skipped_prefix.load(Ordering::Relaxed),
         "resolve_cases": nres,
         "distinct_relative_paths_produced": distinct_rel.len(),
@@ -271,6 +274,9 @@ pub fn run(args: &Args) -> i32 {
 }
 
 pub fn replay(case: &serde_json::Value) -> i32 {
+    if case["layer"].as_str() == Some("e2e") {
+        return crate::e2e::replay(case, true);
+    }
     match case["op"].as_str() {
         Some("pair") => {
             let a = case["a"].as_str().unwrap();
